@@ -132,8 +132,14 @@ def _update_variable_sharding_metadata(
         return node_states.replace(states=(state,))
       else:
         states_out: list[graph.GraphState | variablelib.VariableState] = []
-        for state, axis in zip(node_states.states, node_states.metadata.axes):
+        axes = node_states.metadata.axes
+        if len(node_states.states) != len(axes):
+          # scan keeps only the vectorized states here (carry and broadcast
+          # states are split off), in the order of their integer axes.
+          axes = tuple(axis for axis in axes if isinstance(axis, int))
+        for i, state in enumerate(node_states.states):
           assert isinstance(state, graph.State | variablelib.VariableState)
+          axis = axes[i] if i < len(axes) else None
           if isinstance(axis, int):
             state = axis_fn(state, axis, transform_metadata)
           states_out.append(state)
